@@ -209,7 +209,7 @@ def zbool(v):
         k = v.ty.kind
         if k == "bool":
             return v.t
-        if k == "int":
+        if k in ("int", "real"):
             return v.t != 0
         if k == "seq":
             return z3.Length(v.t) > 0
